@@ -188,6 +188,12 @@ def main():
         "extra": {k: v for k, v in extra.items() if k != "violations"},
         "notes": notes, "build_s": round(build_s, 1), "impl_s": round(impl_s, 1),
     }
+    if getattr(mod, "TIES", None):
+        # functions regenerated from /repo's current source by harness/gen_fun.py in this run, with the committed theorems
+        # (Gen/FunOk_*.v, compiled against the regenerated text) stating that they are the model's functions
+        coverage["translator_ties"] = {"checked_this_run": table_broken is None, "functions": mod.TIES}
+        coverage["trusted_base"] = coverage["trusted_base"] + [
+            "translator harness/gen_fun.py (fail-closed Python AST -> Gallina) with the semantics Base/PyEval.v gives to the Python operations of the translated functions"]
     if not args.replay:       # a replay is a diagnostic run of one input: it leaves the evidence of the last full run alone
         core.write_evidence(pid, args.tier, seed, coverage, time.time() - t0, len(violations),
                             getattr(mod, "ASSUMPTIONS", []))
